@@ -8,6 +8,7 @@ package harness
 import (
 	"bytes"
 	"fmt"
+	"github.com/elliotchance/gedcom/v39/html"
 	"math/rand/v2"
 	"sort"
 	"strings"
@@ -382,6 +383,10 @@ func genLivingCase(prop, tier string, r *rand.Rand) *Case {
 	}
 	cfg := &PublishCfg{Options: genPubOptions(r, []string{"hide", "placeholder"}), Jobs: pick(r, []int{1, 1, 2, 8})}
 	cfg.Options.MaxLivingAgeZero = maxAgeZero
+	if r.IntN(12) == 0 {
+		v := cfg.Options.Visibility
+		cfg.Options.Spelling = pick(r, []string{strings.ToUpper(v[:1]) + v[1:], strings.ToUpper(v), v + " ", " " + v})
+	}
 	for _, tp := range people {
 		li := LivingInfo{Ptr: tp.p.Ptr, Living: tp.living}
 		for k := range tp.given {
@@ -402,6 +407,7 @@ func genLivingCase(prop, tier string, r *rand.Rand) *Case {
 		v.Prior = 0
 		po := cfg.Options
 		po.Visibility = "show"
+		po.Spelling = ""
 		v.PriorOptions = &po
 		v.SameObject = r.IntN(2) == 0
 		if v.SameObject && r.IntN(2) == 0 {
@@ -500,6 +506,23 @@ func runLivingCase(t *testing.T, c *Case, cr *CaseResult) *CaseResult {
 	}
 	if len(c.Docs) > 0 && strings.Contains(c.Docs[0], " \n") {
 		cr.Probes["blank_padded_input"]++
+	}
+	if cfg.Options.Spelling != "" {
+		refused := false
+		func() {
+			defer func() {
+				if recover() != nil {
+					refused = true
+				}
+			}()
+			html.NewLivingVisibility(cfg.Options.Spelling)
+		}()
+		if refused {
+			cr.Probes["visibility_spelling_refused"]++
+			cfg.Options.Spelling = ""
+		} else {
+			cr.Probes["visibility_spelling_accepted"]++
+		}
 	}
 	// history
 	var run *pubRun
